@@ -261,7 +261,7 @@ package varlink
 //@   ensures [released C10 C14 C15] gCntDelta[*s] == old(gCntDelta)[*s] - 1 && wgDones[*wg] == old(wgDones)[*wg] + 1 && !held[*s]
 //@   ensures [frame C10 C14] forall r ref :: r != *s ==> held[r] == old(held)[r]
 
-//@ func (*Service).handleConnection {C01 C02 C10 C14 C15 | safety: C10}
+//@ func (*Service).handleConnection {C01 C02 C04 C10 C14 C15 | safety: C10}
 //@   locks s
 //@   requires [nn] s != nil && conn != nil && wg != nil && dispatchersNonNil(s) && !held[s]
 //@   modifies s.conncounter, held, wgDones, gCntDelta, closed, gNewConn, gHandlerErr, dlRpast, dlRzero, dlRctx, helper, gDlFail, gCancelled, gCtxErr, sockOff, bufLo, bufHi, gRdCalls, gSends, gSentVal, gSentErr, wcount, wlastErr, wlastCont, wlastParams, dcount, dlastIface, dlastMethod, dlastResult, gm, gDecErr, gMethod, gOneway
@@ -270,7 +270,7 @@ package varlink
 //@   ensures [onereader C01 C02 C03 C10] gNewConn == old(gNewConn) + 1
 //@   ensures [closed C10 C14] closed[conn]
 //@   ensures [released C10 C14 C15] gCntDelta[s] == old(gCntDelta)[s] - 1 && wgDones[wg] == old(wgDones)[wg] + 1 && !held[s]
-//@   assert [strip C01 C02 C10] at call(HandleMessage)#1 : err == nil && len(request) >= 1 && request[len(request) - 1] == 0 && arg3 == request[0:len(request) - 1] && arg2 == boxed(ctxConn) && arg0 == s
+//@   assert [strip C01 C02 C04 C10] at call(HandleMessage)#1 : err == nil && len(request) >= 1 && request[len(request) - 1] == 0 && arg3 == request[0:len(request) - 1] && arg2 == boxed(ctxConn) && arg0 == s
 //@   assert [reader C02] at call(ReadBytes)#1 : arg0 == ctxConn && arg2 == 0
 //@   assert [close C10] at call(Close)#1 : arg0 == conn
 //@   loop 1 invariant [reader C01 C02 C03 C10] cstruct(ctxConn) && ctxConn.conn == conn && gNewConn == old(gNewConn) + 1 && !held[s]
@@ -491,6 +491,7 @@ package varlink
 //@   ensures [notimeout C15] timeout == 0 ==> gSetDl == old(gSetDl)
 //@   ensures [released C15] gBound != nil ==> closed[gBound]
 //@   ensures [drained C14] wgWaited[addr_wg]
+//@   ensures [balance-ret C14 C15] wgAdds[addr_wg] == gSpawned && gCntDelta[s] == old(gCntDelta)[s] + gSpawned
 //@   assert [rearm C15] at call(Accept)#1 : arg0 == l && (timeout != 0 ==> gDlOk)
 //@   assert [account C14] at go#1 : gCntDelta[s] == gAccDelta + 1 && wgAdds[addr_wg] == gAdds + 1 && arg0 == s && arg2 == conn && arg3 == addr_wg && gAccErr == nil
 //@   loop 1 invariant [iter] !held[s] && l == gBound && l != nil && s.listener == gBound && (timeout == 0 ==> gSetDl == old(gSetDl))
@@ -523,6 +524,7 @@ package varlink
 //@   ensures [notimeout C15] timeout == 0 ==> gSetDl == old(gSetDl)
 //@   ensures [released C15] gBound != nil ==> closed[gBound]
 //@   ensures [drained C14] wgWaited[addr_wg]
+//@   ensures [balance-ret C14 C15] wgAdds[addr_wg] == gSpawned && gCntDelta[s] == old(gCntDelta)[s] + gSpawned
 //@   ensures [nolistener C14] old(s.listener) == nil ==> result != nil
 //@   assert [rearm C15] at call(Accept)#1 : arg0 == l && (timeout != 0 ==> gDlOk)
 //@   assert [account C14] at go#1 : gCntDelta[s] == gAccDelta + 1 && wgAdds[addr_wg] == gAdds + 1 && arg0 == s && arg2 == conn && arg3 == addr_wg && gAccErr == nil
